@@ -5,6 +5,7 @@ mod cluster;
 mod journal;
 mod panics;
 mod profiles;
+mod sched;
 mod stream;
 mod walk;
 
@@ -20,6 +21,7 @@ fn main() {
         "alloc" => alloc::main(&args[2..]),
         "auth" => auth::main(&args[2..]),
         "stream" => stream::main(&args[2..]),
+        "sched" => sched::main(&args[2..]),
         "autoalloc" => autoalloc::main(&args[2..]),
         _ => {
             eprintln!("unknown command {}", args[1]);
